@@ -104,7 +104,7 @@ func (d *qhDom) Gen(r *gen.R, tier string, emit func(string)) {
 		genHold := func() {
 			switch r.Intn(7) {
 			case 0:
-				emit(wire.Line("hold", "coll"))
+				emit(wire.Line("hold", r.Pick([]string{"coll", "fixed"})))
 			case 1:
 				emit(wire.Line("hold", "byp."+r.Pick([]string{"a", "ab", "b", "abc", "x"})))
 			case 2:
@@ -412,6 +412,10 @@ func (d *qhDom) start(kind string) string {
 	s.SetLogger(svc.NopLogger{})
 	s.SetQueryEventDuration(300 * time.Millisecond)
 	s.Handle("coll", res.Collection, store.QueryHandler{QueryStore: qstore})
+	// an ordinary resource on a static pattern whose RequestHandler supplies a fixed, non-default query
+	s.Handle("fixed", res.Collection, store.QueryHandler{QueryStore: qstore, RequestHandler: func(string, map[string]string) (url.Values, error) {
+		return url.Values{"idx": {"kg"}, "prefix": {"g_"}, "rev": {"T"}}, nil
+	}})
 	s.Handle("byp.$p", res.Model, store.QueryHandler{QueryStore: qstore, RequestHandler: byPrefix,
 		Transformer: store.IDToRIDModelTransformer(toRID), AffectedResources: qhAffectedByPrefix})
 	s.Handle("cbyp.$p", res.Collection, store.QueryHandler{QueryStore: qstore, RequestHandler: byPrefix,
